@@ -187,7 +187,8 @@ const TOKENS: &[&str] = &[
     "ffffffff", "100000000", "fffffffff", "0000000000", "00000001000", "ffffffffffffffff", "10000000000000000",
     "1ffffffffffffffff", "ffffffff00001050", "100001050", "200", "4294967295", "4294967296", "9999999999",
     "99999999999", "0000000007", "00000000007", "", "g", "0x10", "+1", "-1", "é", "1é", "١", "1g", "F", "aB",
-    "1080", "10a0", "20", "80",
+    "1080", "10a0", "20", "80", "99999999999999999999", "18446744073709551616", "184467440737095516150", "00000000000000000000001",
+    "fffffffffffffffffffffffff",
 ];
 
 pub fn tok(rng: &mut Rng) -> String {
@@ -353,6 +354,8 @@ pub fn asmreq_ops(rng: &mut Rng, n: usize) -> Vec<String> {
 
 pub struct SymFile {
     pub text: Vec<u8>,
+    /// ends with `FILE 9 src/a.c` / `FUNC 5000 10 0 srcfn` / `5000 10 3 9` (a source request can succeed)
+    pub has_source: bool,
     /// addresses worth looking up (record boundaries)
     pub addrs: Vec<u32>,
 }
@@ -458,10 +461,16 @@ pub fn gen_sym(rng: &mut Rng) -> SymFile {
                 lines[i] = parts.join(&b' ');
             }
             _ => {
-                let n = rng.range(100, 5000) as usize;
+                let n = rng.range(100, 700) as usize;
                 lines[i].extend(std::iter::repeat(b'A').take(n));
             }
         }
+    }
+    let has_source = rng.chance(1, 3);
+    if has_source {
+        lines.push(b"FILE 9 src/a.c".to_vec());
+        lines.push(b"FUNC 5000 10 0 srcfn".to_vec());
+        lines.push(b"5000 10 3 9".to_vec());
     }
     let mut text = Vec::new();
     let nl: &[u8] = if rng.chance(1, 8) { b"\r\n" } else { b"\n" };
@@ -471,15 +480,20 @@ pub fn gen_sym(rng: &mut Rng) -> SymFile {
             text.extend_from_slice(nl);
         }
     }
-    SymFile { text, addrs }
+    SymFile { text, addrs, has_source }
 }
 
+/// (the code under test is called while *generating*, too: a panic there must not kill the harness —
+/// the same input is executed as an operation and reported there)
 pub fn make_index(sym: &[u8], chunk: usize) -> Option<Vec<u8>> {
-    let mut c = BreakpadIndexCreator::new();
-    for p in sym.chunks(chunk.max(1)) {
-        c.consume(p);
-    }
-    c.finish().ok()
+    std::panic::catch_unwind(|| {
+        let mut c = BreakpadIndexCreator::new();
+        for p in sym.chunks(chunk.max(1)) {
+            c.consume(p);
+        }
+        c.finish().ok()
+    })
+    .unwrap_or(None)
 }
 
 const HEADER_VALUES: &[u32] = &[0, 1, 3, 4, 15, 16, 47, 48, 49, 0x0fffffff, 0x10000000, 0x10000001, 0x3fffffff, 0x40000000,
@@ -538,7 +552,7 @@ pub fn module_info_oracle(data: &[u8]) -> bool {
     reduced[12..16].copy_from_slice(&48u32.to_le_bytes());
     reduced[16..20].copy_from_slice(&(len as u32).to_le_bytes());
     reduced.extend_from_slice(mi);
-    BreakpadIndex::parse_symindex_file(&reduced[..]).is_ok()
+    std::panic::catch_unwind(|| BreakpadIndex::parse_symindex_file(&reduced[..]).is_ok()).unwrap_or(false)
 }
 
 pub fn symindex_op(data: &[u8]) -> String {
@@ -738,8 +752,16 @@ pub fn sym_case(rng: &mut Rng) -> Vec<String> {
     }
     let a: Vec<String> = addrs.iter().map(|a| a.to_string()).collect();
     ops.push(format!("lookup {} {}", hx(names[0]), a.join(" ")));
+    if sym.has_source {
+        ops.push(format!("file {} {}", hx("src/a.c"), hx("int main() { return 0; }\n")));
+        let lib_name = names[0].trim_end_matches(".sym");
+        for (off, file) in [(0x5000u64, "src/a.c"), (0x5004, "src/b.c"), (0x5010, "src/a.c")] {
+            let req = obj(vec![("debugName", st(lib_name)), ("debugId", st(MODULE_ID)), ("moduleOffset", hexs(off)), ("file", st(file))]);
+            ops.push(api_op("/source/v1", &req.text()));
+        }
+    }
     if rng.chance(1, 2) {
-        ops.push(format!("symcreate {} {}", rng.pick(&[1u32, 2, 3, 7, 64, 4096]), hex(&sym.text)));
+        ops.push(format!("symcreate {} @{}", rng.pick(&[1u32, 2, 3, 7, 64, 4096]), hx(names[0])));
     }
     // requests that hit the served file
     let lib_name = names[0].trim_end_matches(".sym");
@@ -865,7 +887,7 @@ pub fn fixed_cases(tier: Tier) -> Vec<Case> {
     // (4) special paths, request hex fields
     chunked("paths", PATHS.iter().map(|p| format!("specialpath {}", hx(p))).collect(), 40, &mut out);
     let mut ops = Vec::new();
-    for a in WEIRD_STRINGS.iter().chain(["0x10", "0xffffffff", "0x100000000", "0x+10", "0x+ffffffff", "0x+100000000", "0x-0"].iter()) {
+    for a in WEIRD_STRINGS.iter().chain(["0x10", "0xffffffff", "0x100000000", "0x+10", "0x+ffffffff", "0x+100000000", "0x-0", "0é", "0é10", "0€", "é0x10", "0", "0y10", "x010"].iter()) {
         ops.push(format!("asmreq {} {}", hx(a), hx("0x10")));
         ops.push(format!("asmreq {} {}", hx("0x10"), hx(a)));
     }
@@ -881,7 +903,7 @@ pub fn fixed_cases(tier: Tier) -> Vec<Case> {
         }
     }
     ops.push(symindex_op(&synthetic_index(base, 160, false)));
-    let valid = make_index(format!("MODULE Linux x86_64 {MODULE_ID} t\nFILE 0 a.c\nINLINE_ORIGIN 0 g\nFUNC 1000 10 0 f\n1000 10 1 0\nPUBLIC 2000 0 p\n").as_bytes(), 7).unwrap();
+    let valid = make_index(format!("MODULE Linux x86_64 {MODULE_ID} t\nFILE 0 a.c\nINLINE_ORIGIN 0 g\nFUNC 1000 10 0 f\n1000 10 1 0\nPUBLIC 2000 0 p\n").as_bytes(), 7).unwrap_or_default();
     let step = if tier == Tier::Quick { 3 } else { 1 };
     for cut in (0..=valid.len()).step_by(step) {
         ops.push(symindex_op(&valid[..cut]));
